@@ -1420,3 +1420,231 @@ Proof.
   exists r, prod, pre, w, post. auto.
 Qed.
 Print Assumptions regex_match_sound.
+
+(* ---- completeness: no false negatives ---- *)
+
+Lemma mseq_app : forall k1 k2 pre w1 w2 post,
+  mseq k1 pre w1 (w2 ++ post) -> mseq k2 (pre ++ w1) w2 post ->
+  mseq (k1 ++ k2) pre (w1 ++ w2) post.
+Proof.
+  induction k1 as [|r k1 IH]; intros k2 pre w1 w2 post H1 H2.
+  - cbn [mseq] in H1. subst. rewrite app_nil_r in H2. exact H2.
+  - cbn [mseq] in H1. destruct H1 as (wa & wb & -> & Hr & Hk).
+    cbn [app mseq]. exists wa, (wb ++ w2). split; [now rewrite app_assoc|]. split.
+    + now rewrite <- app_assoc.
+    + apply IH; [exact Hk|]. now rewrite app_assoc in H2.
+Qed.
+
+Lemma mseq_single_intro : forall b pre w post, matches b pre w post -> mseq [b] pre w post.
+Proof.
+  intros b pre w post H. cbn [mseq]. exists w, []. rewrite app_nil_r. cbn [app]. auto.
+Qed.
+
+Lemma iter_nil_head : forall (P : list N -> list N -> list N -> Prop) pre ws post,
+  ws <> [] -> iter P pre ws post -> concat ws = [] -> P pre [] post.
+Proof.
+  intros P pre [|w1 ws'] post Hne Hit Hc; [congruence|].
+  cbn [concat] in Hc. apply app_eq_nil in Hc. destruct Hc as [-> Hc].
+  cbn [iter] in Hit. destruct Hit as [H _]. now rewrite Hc in H.
+Qed.
+
+Lemma nullable_complete : forall r pre post,
+  matches r pre [] post -> nullable (nilb pre) (nilb post) r = true.
+Proof.
+  induction r as [|c| |n1 i1| | |a IHa b IHb|a IHa b IHb|a IHa|a IHa|a IHa mn mx];
+    intros pre post H; cbn [nullable matches] in *.
+  - reflexivity.
+  - discriminate.
+  - destruct H as (c & Hc & _). discriminate.
+  - destruct H as (c & Hc & _). discriminate.
+  - destruct H as [_ ->]. reflexivity.
+  - destruct H as [_ ->]. reflexivity.
+  - destruct H as (w1 & w2 & Hw & Ha & Hb). symmetry in Hw. apply app_eq_nil in Hw.
+    destruct Hw as [-> ->]. cbn [app] in Ha. rewrite app_nil_r in Hb.
+    rewrite (IHa _ _ Ha), (IHb _ _ Hb). reflexivity.
+  - destruct H as [H|H]; [rewrite (IHa _ _ H) | rewrite (IHb _ _ H)];
+      [reflexivity | apply orb_true_r].
+  - reflexivity.
+  - destruct H as (ws & Hne & Hit & Hc). apply IHa.
+    eapply iter_nil_head; eauto.
+  - destruct H as (ws & Hit & Hc & Hmin & _).
+    destruct (mn =? 0) eqn:E0; [reflexivity|]. cbn [orb]. apply IHa.
+    eapply iter_nil_head; eauto. destruct ws; [cbn [length] in Hmin; lia | discriminate].
+Qed.
+
+(* the first non-empty word of an iteration *)
+Lemma iter_first : forall (P : list N -> list N -> list N -> Prop) ws pre c w post,
+  iter P pre ws post -> concat ws = c :: w ->
+  exists (e : nat) w1 ws',
+    length ws = (e + S (length ws'))%nat /\ w = w1 ++ concat ws' /\
+    P pre (c :: w1) (concat ws' ++ post) /\ iter P (pre ++ c :: w1) ws' post /\
+    (e <> 0%nat -> P pre [] ((c :: w) ++ post)).
+Proof.
+  intros P. induction ws as [|w0 ws0 IH]; intros pre c w post Hit Hc; [discriminate|].
+  cbn [iter] in Hit. destruct Hit as [H0 Hrest]. cbn [concat] in Hc.
+  destruct w0 as [|x w0'].
+  - cbn [app] in Hc. rewrite app_nil_r in Hrest.
+    destruct (IH pre c w post Hrest Hc) as (e & w1 & ws' & Hl & Hw & Hp & Hi & _).
+    exists (S e), w1, ws'. cbn [length]. split; [lia|]. split; [exact Hw|]. split; [exact Hp|].
+    split; [exact Hi|]. intros _. now rewrite Hc in H0.
+  - cbn [app] in Hc. inversion Hc; subst.
+    exists 0%nat, w0', ws0. cbn [length]. split; [lia|]. split; [reflexivity|]. split; [exact H0|].
+    split; [exact Hrest|]. intros Hf. congruence.
+Qed.
+
+Lemma pd_complete : forall r pre c w post,
+  matches r pre (c :: w) post ->
+  exists k, In k (pd (nilb pre) c r) /\ mseq k (pre ++ [c]) w post.
+Proof.
+  induction r as [|d| |n1 i1| | |a IHa b IHb|a IHa b IHb|a IHa|a IHa|a IHa mn mx];
+    intros pre c w post H; cbn [pd matches] in *.
+  - discriminate.
+  - inversion H; subst. rewrite N.eqb_refl. exists []. split; [now left | reflexivity].
+  - destruct H as (c0 & Hc & Hne). inversion Hc; subst.
+    destruct (c0 =? 10) eqn:E; [lia|]. exists []. split; [now left | reflexivity].
+  - destruct H as (c0 & Hc & Hm). inversion Hc; subst. rewrite Hm.
+    exists []. split; [now left | reflexivity].
+  - destruct H as [H _]. discriminate.
+  - destruct H as [H _]. discriminate.
+  - destruct H as (w1 & w2 & Hw & Ha & Hb). destruct w1 as [|x w1'].
+    + cbn [app] in Hw. subst w2. rewrite app_nil_r in Hb.
+      pose proof (nullable_complete _ _ _ Ha) as Hn. cbn [app nilb] in Hn.
+      destruct (IHb _ _ _ _ Hb) as (k & Hk & Hm). exists k. split; [|exact Hm].
+      apply in_or_app. right. now rewrite Hn.
+    + cbn [app] in Hw. inversion Hw; subst.
+      destruct (IHa _ _ _ _ Ha) as (k0 & Hk0 & Hm0).
+      exists (k0 ++ [b]). split.
+      * apply in_or_app. left. apply in_map_iff. eauto.
+      * apply mseq_app; [exact Hm0|]. apply mseq_single_intro. now rewrite snoc_assoc.
+  - destruct H as [H|H]; [destruct (IHa _ _ _ _ H) as (k & Hk & Hm) | destruct (IHb _ _ _ _ H) as (k & Hk & Hm)];
+      exists k; (split; [apply in_or_app; auto | exact Hm]).
+  - destruct H as (ws & Hit & Hc). symmetry in Hc.
+    destruct (iter_first _ _ _ _ _ _ Hit Hc) as (e & w1 & ws' & Hl & -> & Hp & Hi & _).
+    destruct (IHa _ _ _ _ Hp) as (k0 & Hk0 & Hm0).
+    exists (k0 ++ [Star a]). split; [apply in_map_iff; eauto|].
+    apply mseq_app; [exact Hm0|]. apply mseq_single_intro. cbn [matches].
+    exists ws'. split; [now rewrite snoc_assoc | reflexivity].
+  - destruct H as (ws & Hne & Hit & Hc). symmetry in Hc.
+    destruct (iter_first _ _ _ _ _ _ Hit Hc) as (e & w1 & ws' & Hl & -> & Hp & Hi & _).
+    destruct (IHa _ _ _ _ Hp) as (k0 & Hk0 & Hm0).
+    exists (k0 ++ [Star a]). split; [apply in_map_iff; eauto|].
+    apply mseq_app; [exact Hm0|]. apply mseq_single_intro. cbn [matches].
+    exists ws'. split; [now rewrite snoc_assoc | reflexivity].
+  - destruct H as (ws & Hit & Hc & Hmin & Hmax). symmetry in Hc.
+    destruct (iter_first _ _ _ _ _ _ Hit Hc) as (e & w1 & ws' & Hl & Hw & Hp & Hi & He).
+    subst w.
+    assert ((match mx with Some m => m =? 0 | None => false end) = false) as Emx.
+    { destruct mx as [m|]; [|reflexivity]. lia. }
+    rewrite Emx.
+    destruct (IHa _ _ _ _ Hp) as (k0 & Hk0 & Hm0).
+    eexists (k0 ++ [Rep a _ _]). split; [apply in_map_iff; eauto|].
+    apply mseq_app; [exact Hm0|]. apply mseq_single_intro. cbn [matches].
+    exists ws'. split; [now rewrite snoc_assoc|]. split; [reflexivity|]. split.
+    + destruct (nullable (nilb pre) false a) eqn:En; [lia|].
+      assert (e = 0%nat) as ->.
+      { destruct e as [|e']; [reflexivity|]. exfalso.
+        pose proof (nullable_complete _ _ _ (He ltac:(discriminate))) as Hn.
+        cbn [app nilb] in Hn. congruence. }
+      lia.
+    + destruct mx as [m|]; [|exact I]. cbn [opt_pred option_map]. lia.
+Qed.
+
+Lemma nullable_seq_complete : forall k pre post,
+  mseq k pre [] post -> nullable_seq (nilb pre) (nilb post) k = true.
+Proof.
+  induction k as [|r k IH]; intros pre post H; [reflexivity|].
+  cbn [mseq] in H. destruct H as (w1 & w2 & Hw & Hr & Hk).
+  symmetry in Hw. apply app_eq_nil in Hw. destruct Hw as [-> ->].
+  cbn [app] in Hr. rewrite app_nil_r in Hk.
+  unfold nullable_seq in *. cbn [forallb].
+  rewrite (nullable_complete _ _ _ Hr). now rewrite (IH _ _ Hk).
+Qed.
+
+Lemma pd_seq_complete : forall k pre c w post,
+  mseq k pre (c :: w) post ->
+  exists k', In k' (pd_seq (nilb pre) c k) /\ mseq k' (pre ++ [c]) w post.
+Proof.
+  induction k as [|r k IH]; intros pre c w post H; [discriminate|].
+  cbn [mseq] in H. destruct H as (w1 & w2 & Hw & Hr & Hk). cbn [pd_seq].
+  destruct w1 as [|x w1'].
+  - cbn [app] in Hw. subst w2. rewrite app_nil_r in Hk.
+    pose proof (nullable_complete _ _ _ Hr) as Hn. cbn [app nilb] in Hn.
+    destruct (IH _ _ _ _ Hk) as (k' & Hin & Hm). exists k'. split; [|exact Hm].
+    apply in_or_app. right. now rewrite Hn.
+  - cbn [app] in Hw. inversion Hw; subst.
+    destruct (pd_complete _ _ _ _ _ Hr) as (kx & Hkx & Hmx).
+    exists (kx ++ k). split.
+    + apply in_or_app. left. apply in_map_iff. eauto.
+    + apply mseq_app; [exact Hmx|]. now rewrite snoc_assoc.
+Qed.
+
+Lemma accepts_complete : forall w k pre rest,
+  mseq k pre w rest -> accepts_seq (nilb pre) k (w ++ rest) = true.
+Proof.
+  induction w as [|c w IH]; intros k pre rest H.
+  - cbn [app]. pose proof (nullable_seq_complete _ _ _ H) as Hn.
+    destruct rest as [|c rest']; cbn [accepts_seq nilb] in *; [exact Hn|]. now rewrite Hn.
+  - cbn [app accepts_seq]. apply orb_true_iff. right.
+    destruct (pd_seq_complete _ _ _ _ _ H) as (k' & Hin & Hm).
+    apply existsb_exists. exists k'. split; [exact Hin|].
+    rewrite <- (nilb_snoc pre c). now apply IH.
+Qed.
+
+Lemma search_fresh_head : forall r st cs,
+  accepts_seq st [r] cs = true -> search_fresh r st cs = true.
+Proof. intros r st [|c cs] H; cbn [search_fresh]; now rewrite H. Qed.
+
+Lemma search_fresh_complete : forall p2 r pre w post,
+  matches r (pre ++ p2) w post -> search_fresh r (nilb pre) (p2 ++ w ++ post) = true.
+Proof.
+  induction p2 as [|c p2 IH]; intros r pre w post H.
+  - rewrite app_nil_r in H. cbn [app]. apply search_fresh_head.
+    apply accepts_complete. now apply mseq_single_intro.
+  - cbn [app search_fresh]. apply orb_true_iff. right.
+    rewrite <- (nilb_snoc pre c). apply IH. now rewrite snoc_assoc.
+Qed.
+
+(* no false negatives: if some substring of the text matches r, the search says "match" *)
+Theorem search_complete : forall r pre w post,
+  matches r pre w post -> search r true [] (pre ++ w ++ post) = true.
+Proof.
+  intros r pre w post H. rewrite search_initial.
+  apply (search_fresh_complete pre r [] w post). exact H.
+Qed.
+Print Assumptions search_complete.
+
+(* the matcher decides the declarative semantics of the parsed pattern on the subject's code points *)
+Theorem regex_match_correct : forall p s b,
+  regex_match p s = RxMatch b ->
+  exists r prod,
+    parse_pattern p = POk r prod /\
+    (b = true <-> exists pre w post, code_points s = pre ++ w ++ post /\ matches r pre w post).
+Proof.
+  intros p s b H. unfold regex_match in H.
+  destruct (max_pattern_len <? N.of_nat (length p)); [discriminate|].
+  destruct (parse_pattern p) as [r prod| |] eqn:Hp; try discriminate.
+  destruct (max_size_budget <=? prod * (8 * N.of_nat (length p) + 16)); [discriminate|].
+  destruct (wfb r) eqn:Hwf; cbn [negb] in H; [|discriminate].
+  inversion H as [Hs]. exists r, prod. split; [reflexivity|]. split.
+  - intros Hb. rewrite Hb in Hs. symmetry in Hs. now apply search_sound.
+  - intros (pre & w & post & He & Hm). rewrite He. now apply search_complete.
+Qed.
+Print Assumptions regex_match_correct.
+
+(* ================================================================= assumptions of the remaining theorems *)
+Print Assumptions to_upper_supported.
+Print Assumptions to_lower_supported.
+Print Assumptions to_lower_length.
+Print Assumptions to_upper_to_lower.
+Print Assumptions to_upper_nth.
+Print Assumptions to_lower_nth.
+Print Assumptions stable_sort_locally_sorted.
+Print Assumptions cmp_float_nan_least.
+Print Assumptions cmp_float_zeros.
+Print Assumptions sort_floats_perm.
+Print Assumptions sort_by_key_order.
+Print Assumptions sort_by_float_order.
+Print Assumptions grow_cap_N_gt.
+Print Assumptions grow_cap_N_mono.
+Print Assumptions search_initial.
+Print Assumptions search_sound.
